@@ -39,6 +39,8 @@ type c05Params struct {
 	TrigDurMS int `json:"trig_dur_ms,omitempty"`
 	// Reps > 1: the run is repeated (the situation it aims at is a matter of a few milliseconds)
 	Reps int `json:"reps,omitempty"`
+	// SlowGatewayMS > 0: the run pushes its metrics to a (loopback) gateway that takes this long to answer every push
+	SlowGatewayMS int `json:"slow_gateway_ms,omitempty"`
 }
 
 func c05FileYAML(c int, maxDur string, limit uint64, stages string) string {
@@ -406,6 +408,16 @@ func init() {
 					cs = append(cs, cse)
 				}
 			}
+			// a push gateway that takes 2.4 s to answer: the run is slower for it, and still leaves nothing behind
+			{
+				p := c05Params{Ending: "duration", Blocking: "none", SlowGatewayMS: 2400, Desc: "mode=constant c=2 ending=duration blocking=none completion=300ms push gateway answering after 2.4 s"}
+				p.Spec = engine.RateSpec("constant", 2, 20, 2)
+				p.Spec.IgnoreDropped, p.Spec.CompletionMS, p.Spec.MaxDurationMS = true, 300, 300
+				cse := core.MkCase("C05", "run", 7390, seed, p)
+				cse.Solo = true
+				cse.TimeoutMS = 90000
+				cs = append(cs, cse)
+			}
 			// one f1 instance executed twice; the second execution is interrupted by a real SIGINT
 			{
 				cse := core.MkCase("C05", "cli", 50, seed, map[string]int{"twice": 1})
@@ -466,6 +478,12 @@ func c05RunOnce(c *core.Case, o *core.Outcome, p c05Params) {
 		st := strings.TrimPrefix(p.Spec.YAML, "RESTARTED:")
 		st = strings.Replace(st, "duration: 2s", "duration: 1h", 1)
 		p.Spec.YAML = c05FileYAML(p.Spec.Concurrency, "20s", 0, st) + fmt.Sprintf("schedule:\n  stage-start: %s\n", time.Now().Add(-time.Hour-100*time.Millisecond).UTC().Format(time.RFC3339Nano))
+	}
+	if p.SlowGatewayMS > 0 {
+		gw := engine.NewGateway(200)
+		gw.SlowAll = time.Duration(p.SlowGatewayMS) * time.Millisecond
+		defer gw.Close()
+		p.Spec.PushGateway = gw.URL()
 	}
 	opt := goleak.IgnoreCurrent()
 	e := &c05Env{l: engine.NewLog(), gate: make(chan struct{})}
